@@ -42,6 +42,7 @@ pub struct Mix {
     pub rt: &'static [f64],
     pub restart: &'static [f64],
     pub fork: &'static [f64],
+    pub dfs: &'static [f64],
 }
 
 /// one run's configuration, drawn from the mix
@@ -55,6 +56,7 @@ pub struct Swarm {
     pub restart: f64,
     pub fork: f64,
     pub snap: f64,
+    pub dfs: f64,
     pub policy: [Policy; 2],
     pub setup_policy: [SetupPolicy; 2],
 }
@@ -68,6 +70,7 @@ impl Swarm {
         let rt = *rng.pick(mix.rt);
         let restart = *rng.pick(mix.restart);
         let fork = *rng.pick(mix.fork);
+        let dfs = *rng.pick(mix.dfs);
         let p0 = POLICIES[rng.weighted(&mix.policies)];
         let p1 = if rng.chance(0.5) { p0 } else { POLICIES[rng.weighted(&mix.policies)] };
         let mut sp = [SetupPolicy::Uniform; 2];
@@ -82,7 +85,7 @@ impl Swarm {
         let (restart, fork) = if faults { (restart, fork) } else { (0.0, 0.0) };
         // the cage needs the two sides to shuffle and pass as early as possible
         let policy = if family == Family::Cage && rng.chance(0.8) { [Policy::PassEarly, Policy::PassEarly] } else { [p0, p1] };
-        Swarm { family, cap, fan, fan2, rt, restart, fork, snap: if fork > 0.0 { (fork * 2.0).min(0.5) } else { 0.0 }, policy, setup_policy: sp }
+        Swarm { family, cap, fan, fan2, rt, restart, fork, snap: if fork > 0.0 { (fork * 2.0).min(0.5) } else { 0.0 }, dfs, policy, setup_policy: sp }
     }
 }
 
@@ -217,12 +220,16 @@ impl Source for RandomSource {
         let fan = self.rng.chance(self.sw.fan);
         let fork = self.rng.chance(self.sw.fork);
         let fork_k = self.rng.next();
+        let dfs = self.rng.chance(self.sw.dfs);
         let restart = self.rng.chance(self.sw.restart);
         if snap {
             ops.push("!snap".to_string());
         }
         if rt {
             ops.push("?rt".to_string());
+        }
+        if dfs && !w.m.setup {
+            ops.push("?turn".to_string());
         }
         if fan2 {
             ops.push("?fan2".to_string());
@@ -306,6 +313,40 @@ fn fan_out(ctx: &mut Ctx, eq: &mut EqTable, w: &mut World, info: &StateInfo, dep
     Ok(())
 }
 
+/// exhaustive expansion of the rest of the current turn (every step sequence until the turn
+/// ends), with the full state check at every node; bounded by a node budget
+fn turn_dfs(ctx: &mut Ctx, eq: &mut EqTable, w: &mut World, info: &StateInfo, budget: &mut usize, path: &mut Vec<String>) -> Result<(), Stop> {
+    let side = w.m.side;
+    for a in &info.offered {
+        if *budget == 0 {
+            return Ok(());
+        }
+        *budget -= 1;
+        let cp = w.checkpoint();
+        path.push(a.to_string());
+        let r = (|| -> Result<(), Stop> {
+            w.apply(ctx, a, true)?;
+            ctx.stats.inc("turn_dfs_nodes");
+            if w.m.side != side || w.m.steps_made() == 0 {
+                // the turn ended: the cheap monitors and the result at the new turn start
+                let info2 = w.check_state(ctx, eq)?;
+                let _ = info2;
+                return Ok(());
+            }
+            let info2 = w.check_state(ctx, eq)?;
+            if !info2.finished {
+                turn_dfs(ctx, eq, w, &info2, budget, path)?;
+            }
+            Ok(())
+        })();
+        w.restore(cp);
+        let here = path.join(" ");
+        path.pop();
+        r.map_err(|s| annotate(s, &format!("turn expansion {}", here)))?;
+    }
+    Ok(())
+}
+
 pub struct RunOutcome {
     pub stop: Option<Stop>,
     /// index into the trace of the operation during which the run stopped (trace.len() = in the
@@ -353,6 +394,11 @@ pub fn execute(ctx: &mut Ctx, eq: &mut EqTable, start: &Start, src: &mut dyn Sou
                 match op.as_str() {
                     "?fan" => fan_out(ctx, eq, &mut w, &info, 1)?,
                     "?fan2" => fan_out(ctx, eq, &mut w, &info, 2)?,
+                    "?turn" => {
+                        ctx.stats.inc("turn_dfs");
+                        let mut budget = 1500usize;
+                        turn_dfs(ctx, eq, &mut w, &info, &mut budget, &mut vec![])?;
+                    }
                     "?rt" => {
                         w.check_roundtrip(ctx)?;
                     }
